@@ -28,6 +28,8 @@ CRS_TABLE = {
     "epsg:4979": (4979, True),
     "EPSG:9518": (9518, True),
     "EPSG:7415": (7415, False),
+    # a compound definition given as "EPSG:<horizontal>+<vertical>" (not a single EPSG code; ValueError before fix 3b5294a)
+    "EPSG:4326+5773": (9707, True),
 }
 _crs_objs = {}
 
